@@ -1,6 +1,7 @@
 """C11 — an export writes exactly the root's and its dependencies' files (structural clauses)."""
 from rules import export_rules as E
 from rules import templates as T
+from rules import field_rules as F
 from rules import macro_mir as MM
 
 ASSUMPTIONS = ["the directory-form/file-form decision inside the generated output_path() is a run-time string test and is not decided"]
@@ -16,7 +17,7 @@ def run(ctx):
                 r.rule += "@" + fs
         out += res
     out.append(MM.same_relation_rule(ctx.mir("default")["ts_rs"], "C11", rule="C11.R11"))
-    out.append(T.output_path_rule(ctx.syn, "C11"))
+    out.append(F.output_path_rule(ctx.mir("default")["ts_rs_macros"], "C11"))
     out.append(T.export_test_rule(ctx.syn, "C11"))
     out.append(T.deps_emission_rule(ctx.syn, ctx.mir("default")["ts_rs_macros"], "C11", "C11.R6"))
     out.append(T.generics_visit_rule(ctx.syn, "C11", "C11.R7"))
